@@ -308,7 +308,8 @@ def case_df_history(prog, letters):
 
 # ---------------------------------------------------------------------------- faults (C12)
 FAULTS = ["none", "drop-first", "drop-middle", "drop-last", "duplicate", "unknown-item", "nan-value", "missing-column", "missing-single-item-column",
-          "two-odd-value-columns", "unknown+drop", "duplicate+drop", "nan+unknown", "duplicate-after-type-conversion"]
+          "two-odd-value-columns", "unknown+drop", "duplicate+drop", "nan+unknown", "duplicate-after-type-conversion",
+          "unknown-item-first-dimension", "unknown-item-early", "unknown-item-in-single-item-column"]
 
 
 def long_frame(dw, arr, letters):
@@ -347,6 +348,23 @@ def apply_fault(dw, df: PD.Frame, letters, fault):
             r = list(rows[-1])
             j = ci[-1]
             r[j] = "zz" if isinstance(r[j], str) else 99999
+            rows.append(r)
+            note["extra"] = True
+        elif f in ("unknown-item-first-dimension", "unknown-item-early"):
+            r = list(rows[0])
+            j = ci[0] if f == "unknown-item-first-dimension" else ci[-1]
+            r[j] = "zz" if isinstance(r[j], str) else 99999
+            if f == "unknown-item-early":
+                rows.insert(0, r)        # the stray row comes before the genuine row of the cell a position of -1 / 0 would hit
+            else:
+                rows.append(r)
+            note["extra"] = True
+        elif f == "unknown-item-in-single-item-column":
+            single = [i for i, l in zip(ci, letters) if len(DIMS[l][1]) == 1]
+            if not single:
+                return None
+            r = list(rows[0])
+            r[single[0]] = "zz"
             rows.append(r)
             note["extra"] = True
         elif f == "nan-value" or f == "nan":
@@ -390,7 +408,7 @@ def expected_outcome(fault, note, removed, nan_keys, allow_missing, allow_extra)
 
 def case_faults(prog, letters, target="from_df"):
     out = []
-    for fault in FAULTS:
+    for fault, header in itertools.product(FAULTS, ("name", "letter")):
         for am, ae in itertools.product((False, True), repeat=2):
             dw = DW(prog)
             it = dw.it
@@ -401,8 +419,10 @@ def case_faults(prog, letters, target="from_df"):
             if r is None:
                 continue
             frame, removed, nan_keys, note = r
+            if header == "letter":
+                frame = frame.rename(columns={DIMS[l][0]: l for l in letters})
             exp = expected_outcome(fault, note, removed, nan_keys, am, ae)
-            inp = {"dims": list(letters), "fault": fault, "allow_missing_values": am, "allow_extra_values": ae, "via": target}
+            inp = {"dims": list(letters), "fault": fault, "allow_missing_values": am, "allow_extra_values": ae, "via": target, "dimension_columns_headed_by": header}
             kw = {}
             if am:
                 kw["allow_missing_values"] = True
